@@ -34,7 +34,7 @@ func init() {
 			"a race needs both accesses executed: the race detector sees exactly what the workload performs",
 			"writes that store the value already present are invisible to the snapshot (visible to the race detector only)",
 		},
-		Cases:         func(tier string) int { return pick(tier, 900, 30000) },
+		Cases:         func(tier string) int { return pick(tier, 1400, 30000) },
 		Run:           c09Run,
 		Binary:        "race",
 		Aux:           c09Aux,
@@ -143,6 +143,23 @@ var c09Mutators = []struct{ name, form string }{
 	{"foldl-sort", "(foldl (lambda (a x) (stable-sort < a)) V V)"},
 	{"make-vector-assoc", "(let ([m (sorted-map \"k\" V)]) (assoc! m \"k2\" (stable-sort < (get m \"k\"))) m)"},
 	{"macroexpand-sorter", "(macroexpand (cons 'sort-args-m V))"},
+	// values DERIVED from V by forms that must hand out fresh storage, then changed in place
+	{"quasi-lone-splice-sort", "(stable-sort < (quasiquote ((unquote-splicing V))))"},
+	{"quasi-splice-sort", "(stable-sort < (quasiquote (0 (unquote-splicing V))))"},
+	{"quasi-splice-nested-sort", "(stable-sort < (car (quasiquote (((unquote-splicing V)) 1))))"},
+	{"quasi-unquote-sort", "(stable-sort < (car (quasiquote ((unquote V)))))"},
+	{"apply-list-sort", "(stable-sort < (apply list V))"},
+	{"unpack-rest-sort", "(unpack (lambda (&rest xs) (stable-sort < xs)) V)"},
+	{"reverse-reverse-sort", "(stable-sort < (reverse 'list (reverse 'list V)))"},
+	{"concat-empty-sort", "(list (stable-sort < (concat 'list V ())) (stable-sort < (concat 'list () V)))"},
+	{"append-list-zero-sort", "(stable-sort < (append 'list V))"},
+	{"reject-none-sort", "(stable-sort < (reject 'list (lambda (x) false) V))"},
+	{"map-vector-sort", "(stable-sort < (map 'vector identity V))"},
+	{"thread-last-sort", "(thread-last V (stable-sort <))"},
+	{"slice-whole-list-sort", "(stable-sort < (slice 'list V 0 (length V)))"},
+	{"append!-slice-whole-twice", "(let ([a (slice 'vector V 0 (length V))] [b (slice 'vector V 0 (length V))]) (append! a 1) (append! b 2) (list a b))"},
+	{"funcall-optional-sort", "(funcall (lambda (&optional (xs V)) (stable-sort < xs)))"},
+	{"key-arg-sort", "(funcall (lambda (&key xs) (stable-sort < xs)) :xs V)"},
 }
 
 func c09TemplateSource(r *fw.RNG, k int) (src, label string) {
